@@ -92,7 +92,7 @@ func init() {
 
 		m = matchShape("BuildTarget.HasLabel", bodyText(fsT, findFunc(ft, "BuildTarget", "HasLabel")), `{
 			for _, l := range target.Labels { if match(label, l) { return true } }
-			return label == §S && target.IsTest() }`)
+			return target.IsTest() && match(label, §S) }`)
 		implicit := m[0]
 
 		matchShape("BuildTarget.IsTest", bodyText(fsT, findFunc(ft, "BuildTarget", "IsTest")), `{ return target.Test != nil }`)
